@@ -426,7 +426,7 @@ class Ctx:
     return rc == 0, out
 
   # ---- evaluation of the model inside Coq ---------------------------------
-  def coq_eval(self, tag, header, terms, per_shard=250, timeout=900):
+  def coq_eval(self, tag, header, terms, per_shard=250, timeout=900, salvage=False, term_timeout=300):
     """Evaluate each Coq term with vm_compute; returns list of result strings
     (same order).  header: vernacular placed at the top of every shard
     (Require Imports, Open Scope...).  Shards are compiled in parallel."""
@@ -445,7 +445,23 @@ class Ctx:
     results = []
     with cf.ThreadPoolExecutor(max_workers=NPROC) as ex:
       outs = list(ex.map(lambda p: coqc(os.path.relpath(p, COQ), timeout=timeout), paths))
-    for (rc, out), sh, path in zip(outs, shards, paths):
+    for k, ((rc, out), sh, path) in enumerate(zip(outs, shards, paths)):
+      if rc != 0 and salvage:
+        # a shard died (typically a time limit on one huge term): evaluate its terms one by one and
+        # mark the ones that still fail as "TIMEOUT" (the caller counts them as inconclusive)
+        self.log("shard %s failed (rc=%s): re-evaluating its %d terms separately" % (path, rc, len(sh)))
+        sub = []
+        for j, t in enumerate(sh):
+          pj = os.path.join(self.gen_dir, "cases_%s_%d_t%d.v" % (tag, k, j))
+          with open(pj, "w") as f:
+            f.write(header + "\nEval vm_compute in (%s).\n" % t)
+          sub.append(pj)
+        with cf.ThreadPoolExecutor(max_workers=NPROC) as ex:
+          souts = list(ex.map(lambda p: coqc(os.path.relpath(p, COQ), timeout=term_timeout), sub))
+        for (rcj, outj) in souts:
+          v = parse_evals(outj) if rcj == 0 else []
+          results.append(v[0] if len(v) == 1 else "TIMEOUT")
+        continue
       if rc != 0:
         raise CoqError("coqc failed on %s:\n%s" % (path, out[-3000:]))
       vals = parse_evals(out)
